@@ -71,7 +71,7 @@ Tri == {"absent", "true", "false"}
 Ticks(lw) == {-lw - 2, -lw - 1, -lw, -lw + 1, -lw + 2, 0, lw - 1, lw, lw + 1, lw + 2}
 
 ValsFull(lw) ==
-  {Absent, Null, Obj, S(""), S("a"), S("b"), B(TRUE), B(FALSE),
+  {Absent, Null, Obj, S(""), S("a"), S("b"), S("ab"), B(TRUE), B(FALSE),
    L(<<>>), L(<<S("a")>>), L(<<S("a"), S("b")>>), L(<<S("c")>>), L(<<S(""), S("b")>>), L(<<N(0)>>)}
   \cup {N(t) : t \in Ticks(lw)}
 
